@@ -80,6 +80,65 @@ def scenario(dest, kind, overwrite, select, layout):
     return world, steps, td, path, other, shown
 
 
+PR_DIRS = ['w', 'v', 'vv/v', 'v.d', 'h']   # (directory names made of characters that also occur in the mount point's own path)
+PR_VOLS = ['/v', '/vol/v']
+
+
+def _put_restore(dk, vk, occupied, sticky):
+    """the entry is trashed by the real trash-put (not planted), the original location is occupied again (or not), then
+    trash-restore: it refuses iff occupied, and otherwise restores to exactly where the entry came from"""
+    with rt.untraced():
+        vol = PR_VOLS[vk]
+        base = vol + '/' + PR_DIRS[dk]
+        rt.begin(('put-then-restore', base, occupied, sticky))
+        path = base + '/x'
+        nodes = [W.d('/h'), W.d(base), W.f(path, 'ORIGINAL', 0o644, 1000), W.f(vol + '/keep', 'KEEP', 0o644, 800)]
+        if sticky:
+            nodes.append(W.d(vol + '/.Trash', 0o1777))
+        world = W.W(mounts=['/', vol], cwd=base, nodes=nodes)
+        e = scen.env()
+        m = W.build_model(world)
+        _, r0 = scen.run_model(None, [C('put', ['--', 'x'], e, cwd=base, now='2020-01-02T00:00:00')], model=m)
+        label = 'put-then-restore:dir=%s:volume=%s' % (PR_DIRS[dk], vol)
+        if r0[0]['exit'] != 0 or r0[0]['exc']:
+            return rt.fail('C06:put-failed:' + label, repr(r0[0])[:300])
+        if occupied:
+            m.add(path, 'f', 0o644, b'EXISTING', 700 * W.TAG_NS)
+        td = vol + ('/.Trash/1000' if sticky else '/.Trash-1000')
+        _, res = scen.run_model(None, [{'snap': '/'}, C('restore', [], e, stdin=['0'], cwd=base), {'snap': '/'}], model=m)
+        before, r, after = res
+        if r['exc']:
+            return rt.fail('C06:traceback:%s:%s' % (r['exc'].split(':')[0], label), r['exc'])
+        pair_before = (scen.sub(before, td + '/files/x'), scen.sub(before, td + '/info/x.trashinfo'))
+        if pair_before[0] is None or pair_before[1] is None:
+            return rt.fail('C06:put-went-elsewhere:' + label, 'no pair x in %s' % td)
+        pair_after = (scen.sub(after, td + '/files/x'), scen.sub(after, td + '/info/x.trashinfo'))
+        if occupied:
+            if scen.sub(after, path) != scen.sub(before, path):
+                return rt.fail('C06:clobbered:' + label, 'destination changed')
+            if pair_after != pair_before:
+                return rt.fail('C06:refused-but-pair-touched:' + label, 'the original location %s is occupied, yet the entry left the trash (stdout %r, exit %r)' % (path, r['out'][-200:], r['exit']))
+            if r['exit'] == 0:
+                return rt.fail('C06:refused-exit-0:' + label, 'exit status 0 although %s exists' % path)
+            if r['err'].strip() == '':
+                return rt.fail('C06:refused-no-message:' + label, 'no message on stderr')
+            removed, added, changed = scen.delta(before, after)
+            if removed or added or changed:
+                return rt.fail('C06:refusal-collateral:' + label, 'refused restore changed %r' % (sorted(list(removed) + list(added) + list(changed))[:4],))
+            return rt.ok()
+        if scen.sub(after, path) != pair_before[0] or pair_after != (None, None) or r['exit'] != 0:
+            return rt.fail('C06:plain-restore-failed:' + label, 'exit=%r err=%r; at %s: %r; stdout %r' % (r['exit'], r['err'][-200:], path, scen.sub(after, path), r['out'][-200:]))
+        return rt.ok()
+
+
+def w_put_restore(dk: int, vk: int, occupied: bool, sticky: bool) -> str:
+    """
+    pre: 0 <= dk < 5 and 0 <= vk < 2
+    post: _ == ''
+    """
+    return _put_restore(rt.sel(dk, 5), rt.sel(vk, 2), rt.selb(occupied), rt.selb(sticky))
+
+
 ENVX = [None, '0', 'no']
 
 
@@ -190,4 +249,6 @@ def obligations(tier):
                bounds='every environment variable the run consults beyond the documented ones (discovered by a probe run) set to 0 / no; 7 destination kinds x 6 entry kinds x 3 selections, no --overwrite'),
             CH('W_dest_kind_overwrite_select_layout', MOD, 'w_main', timeout=900, partitions=list(range(7)),
                engine='W', regime='selector', encodes=K.RESTORE_FUNCS, stubs=K.STUBS,
-               bounds='7 destination kinds x 6 entry kinds x overwrite x 9 selections (incl. a name with a literal +, a Path through a missing directory and dot-dot, two generations of the same path in one selection, and a Path spelled through a symlinked directory and dot-dot) x 3 layouts')]
+               bounds='7 destination kinds x 6 entry kinds x overwrite x 9 selections (incl. a name with a literal +, a Path through a missing directory and dot-dot, two generations of the same path in one selection, and a Path spelled through a symlinked directory and dot-dot) x 3 layouts'),
+            CH('W_put_then_restore_onto_an_occupied_location', MOD, 'w_put_restore', timeout=300, engine='W', regime='selector', encodes=K.PUT_FUNCS + K.RESTORE_FUNCS, stubs=K.STUBS,
+               bounds='the entry is trashed by the real trash-put from 5 directories whose names consist of characters of the mount point path x 2 mount points x location occupied again or not x .Trash sticky or absent')]
